@@ -303,6 +303,8 @@ def _core(draw, row):
         kind = P(NONVOID); return kind, P(RA), [], opts
     if row == "R23":
         kind = P(CORO); return kind, P(RA), [], opts
+    if row == "R24d":
+        kind = P(NONVOID); return kind, P(RA), [ok_ret(kind), P(co_return_variants(kind))], opts
     if row == "R24a":
         kind = P(NORMAL); return kind, P(RA), [P(co_return_variants(kind))], opts
     if row == "R24b":
@@ -361,7 +363,9 @@ def single_fault(row):
         kind, family, clauses, opts = _core(draw, row)
         p = make_program(kind, family, clauses, **opts)
         f = evaluate(p)
-        if len(f) != 1 or f[0].row != row:
+        # R24d always comes together with R24a (one misuse, two acceptable wordings)
+        pair_ok = row == "R24d" and sorted(x.row for x in f) == ["R24a", "R24d"]
+        if not pair_ok and (len(f) != 1 or f[0].row != row):
             raise AssertionError("generator bug: core for %s gives %s: %s" % (row, f, p.describe()))
         if family in CALL_FAMILIES:
             pads = padding_clauses(kind)
@@ -371,7 +375,7 @@ def single_fault(row):
                 cand = clauses[:pos] + [c] + clauses[pos:]
                 q = make_program(kind, family, cand, **opts)
                 g = evaluate(q)
-                if len(g) == 1 and g[0].row == row:
+                if (len(g) == 1 and g[0].row == row) or (pair_ok and sorted(x.row for x in g) == ["R24a", "R24d"]):
                     clauses, p = cand, q
         if _rare(draw, 7):
             o = dict(p.opts); o["long_macros"] = True
